@@ -390,6 +390,16 @@ example : Utf8.valid exSt.message = true := by decide
 example : (toHeaderMap .fixed exSt).toOption = some
     [(HMap.name "x-a", [49]), (HMap.name "x-a", [50]), (GRPC_STATUS, [49, 53]),
      (GRPC_MESSAGE, HMap.name "%25%0A%C3%A9%20"), (GRPC_STATUS_DETAILS, HMap.name "AP8")] := by decide
+/- the block a trailers-only response starts from satisfies the `h0` hypotheses -/
+example : HMap.getAll GRPC_MESSAGE [(CONTENT_TYPE, HMap.name "application/grpc")] = [] ∧
+    HMap.getAll GRPC_STATUS_DETAILS [(CONTENT_TYPE, HMap.name "application/grpc")] = [] := by decide
+/- a peer that escapes only `%`, in lower-case hex, and pads its base64, meets the hypotheses of
+`C04_reads_any_conformant_peer`; so does a block with other headers around -/
+example : (fun b : UInt8 => b == 37) Pct.PCT = true ∧
+    Pct.encodeWith (fun b => b == 37) true [49, 48, 48, 37] = HMap.name "100%25" ∧
+    B64.encode true [255] = HMap.name "/w==" ∧
+    (HMap.getAll GRPC_STATUS [(HMap.name "x-a", [49])] = [] ∧ HMap.getAll GRPC_MESSAGE [(HMap.name "x-a", [49])] = [] ∧
+      HMap.getAll GRPC_STATUS_DETAILS [(HMap.name "x-a", [49])] = []) := by decide
 /- malformed inputs exist on both sides of `C04_read_is_spec` -/
 example : Spec.Status.read [(GRPC_STATUS, HMap.name "016")] = some { code := 2, message := some [], details := some [] } := by decide
 example : (Spec.Status.read [(GRPC_STATUS, [48]), (GRPC_STATUS_DETAILS, HMap.name "QR")]).map (·.details) = some none := by decide
